@@ -18,6 +18,7 @@ func init() {
 			{"MULTISTORE-ROOT", ruleMultistoreRoot},
 			{"ROOTSTORE-BYPASS", ruleRootstoreBypass},
 			{"TXN-SOURCE", ruleTxnSource},
+			{"SHARED-STATE-ON-SUCCESS", ruleSharedStateOnSuccess},
 			{"CTX-TXN", ruleCtxTxn},
 		},
 		Meta: eng.PropMeta{
